@@ -20,7 +20,7 @@ def main():
     prop, seed, wt = sys.argv[1], os.path.abspath(sys.argv[2]), sys.argv[3]
     tier = sys.argv[sys.argv.index("--tier") + 1] if "--tier" in sys.argv else "quick"
     only = [sys.argv[i + 1] for i, a in enumerate(sys.argv) if a == "--only"]
-    name = os.path.basename(seed.rstrip("/"))
+    name = sys.argv[sys.argv.index("--name") + 1] if "--name" in sys.argv else os.path.basename(seed.rstrip("/"))
     dst = os.path.join(V, "seeded", f"{prop}-{name}")
     os.makedirs(dst, exist_ok=True)
     prev0 = {}
